@@ -23,6 +23,16 @@ class Deferred(Node):
         self.tokens = [mixin, args]
         self.lineno = lineno
 
+    @staticmethod
+    def caller(scope):
+        """ The rule an expanded body is rooted under: the innermost
+        enclosing block that is a selector scope (an @media block is not)
+        """
+        for name in reversed(scope.real):
+            if not getattr(name, 'subparse', False):
+                return name
+        return None
+
     def parse(self, scope, error=False, depth=0):
         """ Parse function. We search for mixins
         first within current scope then fallback
@@ -78,7 +88,7 @@ class Deferred(Node):
                 ident.parse(None)
                 block = scope.blocks(ident.raw())
             if block:
-                scope.current = scope.real[-1] if scope.real else None
+                scope.current = self.caller(scope)
                 res = block.copy_inner(scope)
                 scope.current = None
 
@@ -86,7 +96,7 @@ class Deferred(Node):
         if mixins:
             for mixin in mixins:
                 scope.push()
-                scope.current = scope.real[-1] if scope.real else None
+                scope.current = self.caller(scope)
                 res = mixin.call(scope, args)
                 if res:
                     # Add variables to scope to support
